@@ -1,4 +1,106 @@
+/- Driver, `text` family (C18): rendering, parsing, JSON and width conversions. -/
 import Halo.Driver.Basic
+import Halo.Text
+
 namespace Halo.Driver
-def textLine (_a : List String) (_impl : String) : Verdict := { diverge := some "text-not-yet" }
+open Halo Halo.Text
+
+def hexVal (c : Char) : Nat :=
+  if '0' ≤ c ∧ c ≤ '9' then c.toNat - 48 else if 'a' ≤ c ∧ c ≤ 'f' then c.toNat - 87 else 0
+
+/-- `h<hex>` → bytes -/
+def unhex (s : String) : List Nat :=
+  let rec go : List Char → List Nat
+    | a :: b :: rest => (hexVal a * 16 + hexVal b) :: go rest
+    | _ => []
+  go (s.toList.drop 1)
+
+def hexDigit (n : Nat) : Char := if n < 10 then Char.ofNat (48 + n) else Char.ofNat (87 + n)
+def tohex (bs : List Nat) : String :=
+  String.ofList ('h' :: bs.flatMap fun b => [hexDigit (b / 16), hexDigit (b % 16)])
+
+def resBytes : M (List Nat) → String
+  | .ok b => s!"ok {tohex b}"
+  | .error _ => "fail"
+
+def textLine (a : List String) (impl : String) : Verdict :=
+  let op := a.getD 0 ""
+  let arg := a.getD 1 ""
+  match op with
+  | "dec_to_string" =>
+    let v := nat! arg
+    let model := s!"ok {tohex (decRender v)}"
+    let oracle := match impl.splitOn " " with
+      | ["ok", h] =>
+        let s := unhex h
+        chk "C18" "rendered text is not the canonical numeral of the value" (canonicalDec s && denote s == some v)
+      | _ => [("C18", "rendering failed")]
+    mk false model impl oracle
+  | "uint_to_string" | "uint_into_string" =>
+    let v := nat! arg
+    let model := s!"ok {tohex (uintRender v)}"
+    let oracle := match impl.splitOn " " with
+      | ["ok", h] =>
+        let s := unhex h
+        chk "C18" "rendered text is not the canonical numeral of the value" (canonicalInt s && valOf s == v)
+      | _ => [("C18", "rendering failed")]
+    mk false model impl oracle
+  | "dec_from_str" | "dec_json_dec" =>
+    let raw := unhex arg
+    let txt : M (List Nat) := if op == "dec_json_dec" then jsonDec raw else .ok raw
+    let model := res1 (txt >>= decParse)
+    let oracle := match okVals impl, txt with
+      | some [v], .ok s => chk "C18" "accepted string does not denote the parsed value" (denote s == some v)
+      | some _, .error _ => [("C18", "malformed JSON string accepted")]
+      | _, _ => []
+    mk false model impl oracle
+  | "uint_from_str" | "uint_try_from" | "uint_json_dec" =>
+    let raw := unhex arg
+    let txt : M (List Nat) := if op == "uint_json_dec" then jsonDec raw else .ok raw
+    let model := res1 (txt >>= uintParse)
+    let oracle := match okVals impl, txt with
+      | some [v], .ok s => chk "C18" "accepted string does not denote the parsed value" (s.all isDigit && valOf s == v)
+      | some _, .error _ => [("C18", "malformed JSON string accepted")]
+      | _, _ => []
+    mk false model impl oracle
+  | "dec_rt" =>
+    let v := nat! arg
+    let model := res1 (decParse (decRender v))
+    mk false model impl (chk "C18" "render/parse round trip changed the value" (impl == s!"ok {v}"))
+  | "uint_rt" =>
+    let v := nat! arg
+    let model := res1 (uintParse (uintRender v))
+    mk false model impl (chk "C18" "render/parse round trip changed the value" (impl == s!"ok {v}"))
+  | "dec_json_rt" =>
+    let v := nat! arg
+    let j := jsonEnc (decRender v)
+    let model := match jsonDec j >>= decParse with
+      | .ok v' => s!"ok {tohex j} {v'}"
+      | .error _ => "fail"
+    mk false model impl (chk "C18" "JSON round trip changed the value" (impl == s!"ok {tohex j} {v}"))
+  | "uint_json_rt" =>
+    let v := nat! arg
+    let j := jsonEnc (uintRender v)
+    let model := match jsonDec j >>= uintParse with
+      | .ok v' => s!"ok {tohex j} {v'}"
+      | .error _ => "fail"
+    mk false model impl (chk "C18" "JSON round trip changed the value" (impl == s!"ok {tohex j} {v}"))
+  | "u128_rt" =>
+    let w := nat! arg
+    let model := res1 (toU128 (ofU128 w))
+    mk false model impl (chk "C18" "u128 → Uint256 → u128 changed the value" (impl == s!"ok {w}"))
+  | "std_rt" =>
+    let w := nat! arg
+    let model := match toU128 w with
+      | .ok w' => s!"ok {w} {w'}"
+      | .error _ => "fail"
+    mk false model impl (chk "C18" "Decimal → Decimal256 → Decimal changed the value" (impl == s!"ok {w} {w}"))
+  | "dec_to_std" | "uint_to_u128" =>
+    let v := nat! arg
+    let model := res1 (toU128 v)
+    let oracle := if v < W then chk "C18" "narrowing conversion changed a fitting value" (impl == s!"ok {v}")
+      else chk "C18" "narrowing conversion accepted a value that does not fit" (isFail impl)
+    mk false model impl oracle
+  | _ => { diverge := some s!"unknown-text-op {op}" }
+
 end Halo.Driver
